@@ -928,7 +928,12 @@ def trace_part(out, pid, tier, progs, ws, batches, seed, n_runs, maxlen, proj, w
     # fine-grained recording (one event per library operation) for a bounded number of runs:
     # each recording is carried through two TLC trace validations
     cand = [r for r in reqs if len(r["inp"]) <= max_validate_len]
-    for r in (cand if len(cand) <= 6000 else rnd.sample(cand, 6000)):
+    rnd.shuffle(cand)
+    budget = 72000      # characters: the two fine-grained validations are superlinear in the length
+    for r in cand[:6000]:
+        budget -= len(r["inp"]) + 1
+        if budget < 0:
+            break
         r["fine"] = True
     results = run_requests(ws, batches, reqs, pid)
     runs = []
